@@ -53,7 +53,10 @@ impl RT {
             RT::Res(t, e) => format!("Result<{}, {}>", t.ret_ty(), e.ret_ty()),
             RT::Vec(t) => format!("Vec<{}>", t.ret_ty()),
             RT::Poll(t) => format!("std::task::Poll<{}>", t.ret_ty()),
-            RT::Tup(ts) => format!("({},)", ts.iter().map(|t| t.ret_ty()).collect::<Vec<_>>().join(", ")),
+            RT::Tup(ts) => format!(
+                "({},)",
+                ts.iter().map(|t| t.ret_ty()).collect::<Vec<_>>().join(", ")
+            ),
         }
     }
     /// type of the value handed to returns()
@@ -68,7 +71,13 @@ impl RT {
             RT::Res(t, e) => format!("Result<{}, {}>", t.owned_ty(), e.owned_ty()),
             RT::Vec(t) => format!("Vec<{}>", t.owned_ty()),
             RT::Poll(t) => format!("std::task::Poll<{}>", t.owned_ty()),
-            RT::Tup(ts) => format!("({},)", ts.iter().map(|t| t.owned_ty()).collect::<Vec<_>>().join(", ")),
+            RT::Tup(ts) => format!(
+                "({},)",
+                ts.iter()
+                    .map(|t| t.owned_ty())
+                    .collect::<Vec<_>>()
+                    .join(", ")
+            ),
         }
     }
     pub fn is_clone(&self) -> bool {
@@ -111,10 +120,15 @@ impl RT {
     pub fn render(&self, v: &RV) -> (String, String) {
         match (self, v) {
             (RT::U32 | RT::RefU32, RV::Leaf(x)) => (format!("{x}u32"), format!("{x}")),
-            (RT::OwnedString | RT::RefString | RT::RefStr, RV::Leaf(x)) => (format!("String::from(\"s{x}\")"), format!("\"s{x}\"")),
+            (RT::OwnedString | RT::RefString | RT::RefStr, RV::Leaf(x)) => {
+                (format!("String::from(\"s{x}\")"), format!("\"s{x}\""))
+            }
             (RT::StaticStr, RV::Leaf(x)) => (format!("\"lit{x}\""), format!("\"lit{x}\"")),
             (RT::NC, RV::Leaf(x)) => (format!("NC({x})"), format!("NC({x})")),
-            (RT::RefSlice, RV::Leaf(x)) => (format!("vec![{}u8, {}u8]", x % 200, (x + 1) % 200), format!("[{}, {}]", x % 200, (x + 1) % 200)),
+            (RT::RefSlice, RV::Leaf(x)) => (
+                format!("vec![{}u8, {}u8]", x % 200, (x + 1) % 200),
+                format!("[{}, {}]", x % 200, (x + 1) % 200),
+            ),
             (RT::Opt(_), RV::None) => ("None".into(), "None".into()),
             (RT::Opt(t), RV::Some(v)) => {
                 let (e, d) = t.render(v);
@@ -131,23 +145,55 @@ impl RT {
             (RT::Vec(t), RV::Vec(vs)) => {
                 let parts: Vec<(String, String)> = vs.iter().map(|v| t.render(v)).collect();
                 (
-                    format!("vec![{}]", parts.iter().map(|p| p.0.clone()).collect::<Vec<_>>().join(", ")),
-                    format!("[{}]", parts.iter().map(|p| p.1.clone()).collect::<Vec<_>>().join(", ")),
+                    format!(
+                        "vec![{}]",
+                        parts
+                            .iter()
+                            .map(|p| p.0.clone())
+                            .collect::<Vec<_>>()
+                            .join(", ")
+                    ),
+                    format!(
+                        "[{}]",
+                        parts
+                            .iter()
+                            .map(|p| p.1.clone())
+                            .collect::<Vec<_>>()
+                            .join(", ")
+                    ),
                 )
             }
             (RT::Poll(_), RV::Pending) => ("std::task::Poll::Pending".into(), "Pending".into()),
             (RT::Poll(t), RV::Ready(v)) => {
                 let (e, d) = t.render(v);
-                (format!("std::task::Poll::Ready({e})"), format!("Ready({d})"))
+                (
+                    format!("std::task::Poll::Ready({e})"),
+                    format!("Ready({d})"),
+                )
             }
             (RT::Tup(ts), RV::Tup(vs)) => {
-                let parts: Vec<(String, String)> = ts.iter().zip(vs.iter()).map(|(t, v)| t.render(v)).collect();
+                let parts: Vec<(String, String)> =
+                    ts.iter().zip(vs.iter()).map(|(t, v)| t.render(v)).collect();
                 (
-                    format!("({},)", parts.iter().map(|p| p.0.clone()).collect::<Vec<_>>().join(", ")),
+                    format!(
+                        "({},)",
+                        parts
+                            .iter()
+                            .map(|p| p.0.clone())
+                            .collect::<Vec<_>>()
+                            .join(", ")
+                    ),
                     if parts.len() == 1 {
                         format!("({},)", parts[0].1)
                     } else {
-                        format!("({})", parts.iter().map(|p| p.1.clone()).collect::<Vec<_>>().join(", "))
+                        format!(
+                            "({})",
+                            parts
+                                .iter()
+                                .map(|p| p.1.clone())
+                                .collect::<Vec<_>>()
+                                .join(", ")
+                        )
                     },
                 )
             }
@@ -160,7 +206,10 @@ impl RT {
 pub fn value_has_owned(t: &RT, v: &RV) -> bool {
     match (t, v) {
         (RT::U32 | RT::OwnedString | RT::NC | RT::StaticStr, RV::Leaf(_)) => true,
-        (RT::Opt(t), RV::Some(v)) | (RT::Poll(t), RV::Ready(v)) | (RT::Res(t, _), RV::Ok(v)) | (RT::Res(_, t), RV::Err(v)) => value_has_owned(t, v),
+        (RT::Opt(t), RV::Some(v))
+        | (RT::Poll(t), RV::Ready(v))
+        | (RT::Res(t, _), RV::Ok(v))
+        | (RT::Res(_, t), RV::Err(v)) => value_has_owned(t, v),
         (RT::Vec(t), RV::Vec(vs)) => vs.iter().any(|v| value_has_owned(t, v)),
         (RT::Tup(ts), RV::Tup(vs)) => ts.iter().zip(vs.iter()).any(|(t, v)| value_has_owned(t, v)),
         _ => false,
@@ -185,15 +234,27 @@ pub struct NC(pub u32);
 pub fn source(c: &RetCase) -> String {
     let (expr, _) = c.ty.render(&c.value);
     let recv = if c.mut_recv { "&mut self" } else { "&self" };
-    let call = if c.mut_recv { "<Unimock as Tr>::m(&mut u)" } else { "<Unimock as Tr>::m(&u)" };
+    let call = if c.mut_recv {
+        "<Unimock as Tr>::m(&mut u)"
+    } else {
+        "<Unimock as Tr>::m(&u)"
+    };
     let mut s = String::new();
-    s.push_str(&format!("#[unimock(api=M)]\npub trait Tr {{ fn m({recv}) -> {}; }}\n\n", c.ty.ret_ty()));
-    s.push_str(&format!("fn conf() -> {} {{ {expr} }}\n\n", c.ty.owned_ty()));
+    s.push_str(&format!(
+        "#[unimock(api=M)]\npub trait Tr {{ fn m({recv}) -> {}; }}\n\n",
+        c.ty.ret_ty()
+    ));
+    s.push_str(&format!(
+        "fn conf() -> {} {{ {expr} }}\n\n",
+        c.ty.owned_ty()
+    ));
     s.push_str("pub fn run() -> String {\n");
     s.push_str("    let configured = format!(\"{:?}\", conf());\n");
     // single-use path
     s.push_str("    let single = {\n        let mut u = Unimock::new(M::m.next_call(matching!()).returns(conf()));\n");
-    s.push_str(&format!("        let r = {call};\n        format!(\"{{:?}}\", r)\n    }};\n"));
+    s.push_str(&format!(
+        "        let r = {call};\n        format!(\"{{:?}}\", r)\n    }};\n"
+    ));
     if c.ty.is_clone() {
         if c.mut_recv {
             // exclusive receiver: results cannot be held across calls
@@ -202,7 +263,9 @@ pub fn source(c: &RetCase) -> String {
             s.push_str("        format!(\"{}\\u{2}{}\\u{2}{}\", a, b, c)\n    };\n");
         } else {
             s.push_str("    let multi = {\n        let u = Unimock::new(M::m.each_call(matching!()).returns(conf())).no_verify_in_drop();\n");
-            s.push_str(&format!("        let a = {call};\n        let b = {call};\n        let c = {call};\n"));
+            s.push_str(&format!(
+                "        let a = {call};\n        let b = {call};\n        let c = {call};\n"
+            ));
             // read the first result only after the later calls
             s.push_str("        let (sc, sb, sa) = (format!(\"{:?}\", c), format!(\"{:?}\", b), format!(\"{:?}\", a));\n");
             s.push_str("        format!(\"{}\\u{2}{}\\u{2}{}\", sa, sb, sc)\n    };\n");
@@ -233,12 +296,18 @@ pub fn judge(c: &RetCase, line: &str) -> Result<CaseInfo, String> {
     }
     let ty = c.ty.ret_ty();
     if parts[1] != expected {
-        return Err(format!("fn m() -> {ty}: returns({expected}) on the single-use path was observed as {}", parts[1]));
+        return Err(format!(
+            "fn m() -> {ty}: returns({expected}) on the single-use path was observed as {}",
+            parts[1]
+        ));
     }
     if c.ty.is_clone() {
         for (k, got) in parts[2].split('\u{2}').enumerate() {
             if got != expected {
-                return Err(format!("fn m() -> {ty}: each_call(..).returns({expected}): call #{} observed {got}", k + 1));
+                return Err(format!(
+                    "fn m() -> {ty}: each_call(..).returns({expected}): call #{} observed {got}",
+                    k + 1
+                ));
             }
         }
         for (k, got) in parts[3].split('\u{2}').enumerate() {
@@ -250,9 +319,13 @@ pub fn judge(c: &RetCase, line: &str) -> Result<CaseInfo, String> {
     // owned leaves are single-use on the single-use path; purely borrowed values can be returned again
     let second: Vec<&str> = parts[4].split('\u{2}').collect();
     // (a bare `&'static` reference is itself a repeatable borrowed return)
-    let owned_present = c.ty != RT::StaticStr && (!c.ty.has_borrow() || value_has_owned(&c.ty, &c.value));
+    let owned_present =
+        c.ty != RT::StaticStr && (!c.ty.has_borrow() || value_has_owned(&c.ty, &c.value));
     if second.first() != Some(&expected.as_str()) {
-        return Err(format!("fn m() -> {ty}: some_call(..).returns({expected}): first call observed {:?}", second.first()));
+        return Err(format!(
+            "fn m() -> {ty}: some_call(..).returns({expected}): first call observed {:?}",
+            second.first()
+        ));
     }
     match (owned_present, second.get(1)) {
         (true, Some(&"PANIC")) => {}
@@ -275,7 +348,10 @@ pub fn judge(c: &RetCase, line: &str) -> Result<CaseInfo, String> {
         .class_if(c.ty.depth() >= 3, "depth-3")
         .class_if(!c.ty.is_clone(), "non-Clone-leaf(single-use only)")
         .class_if(!c.ty.has_borrow(), "all-owned")
-        .class_if(owned_present && c.ty.has_borrow(), "owned-leaf-instance-in-mixed-value")
+        .class_if(
+            owned_present && c.ty.has_borrow(),
+            "owned-leaf-instance-in-mixed-value",
+        )
         .class(match &c.ty {
             RT::Opt(_) => "outer:Option",
             RT::Res(..) => "outer:Result",
@@ -287,7 +363,13 @@ pub fn judge(c: &RetCase, line: &str) -> Result<CaseInfo, String> {
 }
 
 fn borrowed_leaf() -> BoxedStrategy<RT> {
-    prop_oneof![Just(RT::RefU32), Just(RT::RefString), Just(RT::RefStr), Just(RT::RefSlice)].boxed()
+    prop_oneof![
+        Just(RT::RefU32),
+        Just(RT::RefString),
+        Just(RT::RefStr),
+        Just(RT::RefSlice)
+    ]
+    .boxed()
 }
 
 fn owned_leaf() -> BoxedStrategy<RT> {
@@ -302,7 +384,11 @@ fn sized_borrowed_leaf() -> BoxedStrategy<RT> {
 fn shallow_core() -> BoxedStrategy<RT> {
     prop_oneof![
         borrowed_leaf().prop_map(|l| RT::Opt(Box::new(l))),
-        (borrowed_leaf(), prop_oneof![Just(RT::U32), Just(RT::OwnedString), Just(RT::NC)]).prop_map(|(l, e)| RT::Res(Box::new(l), Box::new(e))),
+        (
+            borrowed_leaf(),
+            prop_oneof![Just(RT::U32), Just(RT::OwnedString), Just(RT::NC)]
+        )
+            .prop_map(|(l, e)| RT::Res(Box::new(l), Box::new(e))),
     ]
     .boxed()
 }
@@ -311,7 +397,13 @@ fn shallow_core() -> BoxedStrategy<RT> {
 /// rejections are counted and reported, not failed).
 pub fn type_strategy() -> BoxedStrategy<RT> {
     // wrappers around a shallow core: Option<..>, Poll<..> chains up to depth 3
-    let wrap1 = (shallow_core(), any::<bool>()).prop_map(|(c, o)| if o { RT::Opt(Box::new(c)) } else { RT::Poll(Box::new(c)) });
+    let wrap1 = (shallow_core(), any::<bool>()).prop_map(|(c, o)| {
+        if o {
+            RT::Opt(Box::new(c))
+        } else {
+            RT::Poll(Box::new(c))
+        }
+    });
     let wrap2 = (shallow_core(), 0..3u8).prop_map(|(c, k)| match k {
         0 => RT::Opt(Box::new(RT::Opt(Box::new(c)))),
         1 => RT::Poll(Box::new(RT::Opt(Box::new(c)))),
@@ -320,10 +412,13 @@ pub fn type_strategy() -> BoxedStrategy<RT> {
     let vec_ref = sized_borrowed_leaf().prop_map(|l| RT::Vec(Box::new(l)));
     let vec_opt = sized_borrowed_leaf().prop_map(|l| RT::Vec(Box::new(RT::Opt(Box::new(l)))));
     // (&'static str next to a self-borrowed element is rejected by rustc: not generated)
-    let tuple_owned = prop_oneof![3 => Just(RT::U32), 3 => Just(RT::OwnedString), 1 => Just(RT::NC)];
+    let tuple_owned =
+        prop_oneof![3 => Just(RT::U32), 3 => Just(RT::OwnedString), 1 => Just(RT::NC)];
     let tuple_elem = prop_oneof![3 => tuple_owned, 3 => borrowed_leaf(), 2 => shallow_core()];
     let tuple = proptest::collection::vec(tuple_elem, 1..=4)
-        .prop_filter("mixed tuples need a borrowed part", |v| v.iter().any(|t| t.has_borrow()))
+        .prop_filter("mixed tuples need a borrowed part", |v| {
+            v.iter().any(|t| t.has_borrow())
+        })
         .prop_map(RT::Tup);
     // all-owned composites of any nesting
     let owned = owned_leaf().prop_recursive(3, 12, 4, |inner| {
@@ -386,18 +481,35 @@ pub fn value_for(t: &RT, sel: &mut impl Iterator<Item = u8>, counter: &mut u32) 
 }
 
 pub fn case_strategy() -> impl Strategy<Value = RetCase> {
-    (type_strategy(), proptest::collection::vec(any::<u8>(), 40), any::<bool>()).prop_map(|(ty, sel, mut_recv)| {
-        let mut it = sel.into_iter();
-        let mut counter = 0;
-        let value = value_for(&ty, &mut it, &mut counter);
-        RetCase { ty, value, mut_recv }
-    })
+    (
+        type_strategy(),
+        proptest::collection::vec(any::<u8>(), 40),
+        any::<bool>(),
+    )
+        .prop_map(|(ty, sel, mut_recv)| {
+            let mut it = sel.into_iter();
+            let mut counter = 0;
+            let value = value_for(&ty, &mut it, &mut counter);
+            RetCase {
+                ty,
+                value,
+                mut_recv,
+            }
+        })
 }
 
 pub const RULE: &str = "programs = methods whose return type is drawn from the families the macro accepts: borrowed leaves (&u32, &String, &str, &[u8]); Option<&T> / Result<&T,E>; Option / Poll wrappers around those up to depth 3; Vec<&T>, Vec<Option<&T>>; 1-4-tuples mixing owned leaves (u32, String, non-Clone, &'static str), borrowed leaves and shallow containers; all-owned composites of Option/Result/Vec/Poll/tuples up to depth 3; &self and &mut self receivers. For each type a value with generated variants (None/Some, Ok/Err, Ready/Pending, vector lengths 0..4) and pairwise distinct leaf values is configured with returns() through next_call (single use), each_call (3 calls, earlier results read after later calls) and some_call(..).n_times(2). Non-trivial = >= 2 container levels or a tuple mixing owned and borrowed leaves; distinct = distinct (type, value)";
 
 fn spec<'a>() -> Spec<'a, RetCase> {
-    Spec { project: "C17", prelude: PRELUDE, source: &source, judge: &judge, nbins: 16, max_shrink_steps: 30, extra_deps: "" }
+    Spec {
+        project: "C17",
+        prelude: PRELUDE,
+        source: &source,
+        judge: &judge,
+        nbins: 16,
+        max_shrink_steps: 30,
+        extra_deps: "",
+    }
 }
 
 pub fn run(ctx: &Ctx) -> Verdict {
@@ -407,13 +519,28 @@ pub fn run(ctx: &Ctx) -> Verdict {
         "Debug renderings identify variant, element order/count and leaf values (leaf values are pairwise distinct)".into(),
         "types outside the accepted families are not generated; rustc rejections are counted (> 5% = inconclusive)".into(),
     ];
-    v.subs.push(crate::replay_corpus(ctx, &|sub, case| replay(sub, case)));
+    v.subs
+        .push(crate::replay_corpus(ctx, &|sub, case| replay(sub, case)));
     let n = ctx.tier.pick(1600, 32_000) as usize;
     let batches = n.div_ceil(1600);
     for b in 0..batches {
-        let sub = if batches == 1 { "types".to_string() } else { format!("types-{b}") };
-        v.subs.push(e2::run(ctx, &sub, case_strategy(), (n / batches).max(1), &spec()));
-        if v.subs.last().map(|s| s.failure.is_some() || s.inconclusive.is_some()).unwrap_or(false) {
+        let sub = if batches == 1 {
+            "types".to_string()
+        } else {
+            format!("types-{b}")
+        };
+        v.subs.push(e2::run(
+            ctx,
+            &sub,
+            case_strategy(),
+            (n / batches).max(1),
+            &spec(),
+        ));
+        if v.subs
+            .last()
+            .map(|s| s.failure.is_some() || s.inconclusive.is_some())
+            .unwrap_or(false)
+        {
             break;
         }
     }
